@@ -426,8 +426,80 @@ Definition prop_ok (c : case) : bool :=
          end
   end.
 
+(** ** the slices RETURNED by ProjectValues, kept by the caller (C08 only; the
+    case type shared with C09 is left as it is)
+
+    A free stream in which the caller keeps every slice ProjectValues returned
+    and reads it again after the later ProjectValues / Project calls on the
+    same parser's projections.  Per kept slice: the index of the call in
+    [ops], the key numbers (the == classes among all Keys the calls returned,
+    -1 = a Key no call returned) and Key.Get of every flattened field of that
+    time, both as read when the call returned and as read LATER (the first
+    later reading that differs, else the one after the last call), and for a
+    ParseWithUnit projection the later Get of the .unit field per Key. *)
+Record lread := mkLR {
+  lr_op : nat;
+  lr_ids_ret : list Z; lr_ids_late : list Z;
+  lr_gets_ret : list (list bytes); lr_gets_late : list (list bytes);
+  lr_units_late : option (list bytes) }.
+
+Inductive case8 :=
+| K8 (c : case)
+| KLate (ops : list op) (outs : list (list Z)) (obs : list pobs) (late : list lread).
+
+Definition as_lread (s : sx) : option lread :=
+  match s with
+  | SL [opi; ir; il; gr; gl; ul] =>
+      do opi <- as_nat opi;
+      do ir <- as_list as_z ir; do il <- as_list as_z il;
+      do gr <- as_list (as_list as_b) gr; do gl <- as_list (as_list as_b) gl;
+      do ul <- as_opt (as_list as_b) ul;
+      Some (mkLR opi ir il gr gl ul)
+  | _ => None
+  end.
+
+Definition decode8 (s : sx) : option case8 :=
+  match s with
+  | SL [SZ 2; ops; outs; obs; late] =>
+      do ops <- as_list as_op ops; do outs <- as_outs outs; do obs <- as_list as_pobs obs;
+      do late <- as_list as_lread late;
+      Some (KLate ops outs obs late)
+  | _ => do c <- decode s; Some (K8 c)
+  end.
+
+Definition zl_eqb := list_eqb Z.eqb.
+
+(** every Key of a slice ProjectValues returned still reads what it read when
+    returned: the same Key (== class) in every position, the same Get for every
+    field; one Key per measurement, and through a ParseWithUnit projection the
+    i-th Key holds the i-th measurement's unit *)
+Definition late_ok (ops : list op) (outs : list (list Z)) (l : lread) : bool :=
+  match nth_error ops (lr_op l) with
+  | Some (OpProjectValues _ r) =>
+      zl_eqb (lr_ids_late l) (lr_ids_ret l)
+      && zl_eqb (lr_ids_ret l) (nth (lr_op l) outs [])
+      && list_eqb blist_eqb (lr_gets_late l) (lr_gets_ret l)
+      && Nat.eqb (length (lr_ids_ret l)) (length (r_units r))
+      && match lr_units_late l with Some us => blist_eqb us (r_units r) | None => true end
+  | _ => false
+  end.
+
+(** the model's Keys are values (rows never change: intern_stable), so what a
+    kept slice reads later is what the call returned *)
+Definition corr_ok8 (c : case8) : bool :=
+  match c with
+  | K8 c => corr_ok c
+  | KLate ops outs obs late => run_corr ops outs obs && forallb (late_ok ops outs) late
+  end.
+
+Definition prop_ok8 (c : case8) : bool :=
+  match c with
+  | K8 c => prop_ok c
+  | KLate ops outs obs late => forallb generic_ok obs && forallb (late_ok ops outs) late
+  end.
+
 Definition run_case (s : sx) : N :=
-  match decode s with
-  | Some c => code_of (corr_ok c) (prop_ok c)
+  match decode8 s with
+  | Some c => code_of (corr_ok8 c) (prop_ok8 c)
   | None => code_undecodable
   end.
